@@ -28,6 +28,12 @@ CHECKS = {
  "C19": ("generated isometric families; stored-outline identity read from the binary; complement at tolerance -1", "§4 C19",
          "Generated families of exact isometric copies (>= 6 decimals) across 1-3 glyphs; every member must resolve to one stored outline (COLR glyph / SVG path + use), and to separate outlines with reuse disabled. Sampling; misses are classified by root cause with picosvg's own key function.",
          "Trusted: fontTools decompilers; picosvg.normalize used only to classify a miss (third-party key function)."),
+ "C04": ("generated codepoint-sequence sets x 13 formats; reference shaper + signature artwork identity", "§4 C04",
+         "Generated sets of interacting codepoint sequences in all 13 formats; the reloaded font is shaped with an independent cmap+ccmp shaper and each source must reach a distinct glyph carrying its own signature artwork; blank/notdef/space/advance rules and 'only from them' probes. Sampling.",
+         "Trusted: fontTools cmap/GSUB decompilers; the 30-line shaper (OpenType ligature algorithm, lookup flag 0)."),
+ "C14": ("generated PNG sets x metrics x {cbdt,sbix} (+ gid-gap fonts through make_cbdt_table); byte identity and placement formulas from the statement", "§4 C14",
+         "Generated bitmap builds; stored image bytes, ppem, vertical/horizontal placement, pixel advance and rejection of unrepresentable combinations are recomputed from the statement's formulas on the reloaded CBDT/CBLC/sbix tables. Sampling.",
+         "Trusted: fontTools CBDT/CBLC/sbix decompilers. 'Within rounding' is read as: either scale ppem/upem or h/emh (ppem is itself a rounding), plus half a font unit of advance."),
 }
 NOT_APPLICABLE = []
 def main():
